@@ -613,8 +613,14 @@ pub fn build_frame<T: Pixel>(op: &Op) -> Frame<T> {
             // the last visible row is the last row of the allocation
             let (xo, yo) = (g[10 + 2 * pl] as usize, g[11 + 2 * pl] as usize);
             let slack = mix(op.dataseed, 0x77 + pl as u64);
-            let stride = xo + w + (slack % 4) as usize;
-            let rows = yo + h + usize::from((slack >> 8) % 10 < 3);
+            // a third of the window frames are cropped vertically only, on all three planes at
+            // once: rows stay packed (stride == width, xpad == ypad == 0 as `from_slice` leaves
+            // them) and only whole rows above or below are invisible - the layout a "this plane
+            // has no padding" test mistakes for an uncropped buffer
+            let vertical_only = mix(op.dataseed, 0x76) % 3 == 0;
+            let xo = if vertical_only { 0 } else { xo };
+            let stride = xo + w + if vertical_only { 0 } else { (slack % 4) as usize };
+            let rows = yo + h + usize::from((slack >> 8) % 10 < 3 || (vertical_only && yo == 0));
             let mut data: Vec<T> = (0..stride * rows).map(|i| T::cast_from(pad_value(op, pl, i))).collect();
             for y in 0..h {
                 for x in 0..w {
